@@ -202,11 +202,15 @@ def gen_container(rng, sps, kind):
             dim = f"dim ignored 1 vals {n} " + " ".join("i%d" % i for i in range(n))
     elif kind == "series":
         idx = coord_values(rng, n)
+        if n >= 2 and rng.random() < 0.4:      # labels need not be unique (several pits at one site)
+            idx[-1] = idx[0]
         nm = None if rng.random() < 0.4 else str(rng.choice(["thickness", "date", "snowpack"]))
         cont = pd.Series(list(sps), index=pd.Index(idx, name=nm), dtype=object)
         frag = f"series {nm or '-'} {n} " + " ".join(f"{tok(k)} {i}" for k, i in zip(idx, ids))
     elif kind == "frame":
         idx = coord_values(rng, n)
+        if n >= 2 and rng.random() < 0.4:
+            idx[-1] = idx[0]
         nm = None if rng.random() < 0.4 else str(rng.choice(["thickness", "date"]))
         colname = str(rng.choice(["snowpack", "sp", "medium"]))
         df = pd.DataFrame({"a": np.arange(n) * 1.5, colname: pd.Series(list(sps), dtype=object).values, "b": ["x"] * n}, index=pd.Index(idx, name=nm))
@@ -916,9 +920,42 @@ def check_batch(seed, n_jobs=None):
     return problems
 
 
+def check_duplicate_labels(seed, frame=False):
+    """a Series (or DataFrame column) of snowpacks whose index labels repeat (several pits at one site): one row of results per snowpack, in
+    order, each equal to the individual run"""
+    from smrt.core.sensor import passive
+    import pandas as pd
+    rng = np.random.default_rng(seed)
+    m = dort_model()
+    n = int(rng.integers(3, 6))
+    sps = [mk_snowpack(rng, "d%d" % i) for i in range(n)]
+    labels = ["site_%s" % "ABC"[int(x)] for x in rng.integers(0, 2, n)]
+    labels[0], labels[-1] = "site_A", "site_A"
+    sensor = passive([18.7e9, 36.5e9], [35., 55.])
+    ser = pd.Series(sps, index=pd.Index(labels, name="site"), dtype=object)
+    r = m.run(sensor, pd.DataFrame({"sp": ser, "x": np.arange(n)}), snowpack_column="sp") if frame else m.run(sensor, ser)
+    if "site" not in r.data.dims or r.data.sizes["site"] != n:
+        return ("duplicate-labels:rows", labels, dict(r.data.sizes), f"{n} rows along 'site'")
+    if [str(x) for x in r.data["site"].values] != labels:
+        return ("duplicate-labels:coords", labels, [str(x) for x in r.data["site"].values], "the labels given, in order")
+    for i, sp in enumerate(sps):
+        one = m.run(sensor, sp).data
+        got = r.data.isel(site=i).transpose(*one.dims)
+        if np.asarray(one.values).tobytes() != np.asarray(got.values).tobytes():
+            return ("duplicate-labels:values", labels, float(np.max(np.abs(one.values - got.values))), f"row {i} equals the individual run")
+    return None
+
+
 def oracle(ctx, hints, effort):
     findings, evals = {}, 0
     first = warm_up()
+    for j in range(2 if effort == "routine" else 6):
+        sd = int(ctx.np.integers(0, 2**31))
+        evals += 1
+        r = check_duplicate_labels(sd, frame=bool(j % 2))
+        if r:
+            findings.setdefault("dort:" + r[0], Finding("dort:" + r[0], f"{'DataFrame' if j % 2 else 'Series'} of snowpacks with labels {r[1]}: {r[0]}",
+                                                        {"kind": "duplicate-labels", "seed": sd, "frame": bool(j % 2)}, r[2], r[3]))
     # inputs untouched
     for kind in SUBSTRATES:
         for act in (False, True):
@@ -981,6 +1018,9 @@ def oracle(ctx, hints, effort):
 
 
 def replay(inp, rp=None):
+    if inp["kind"] == "duplicate-labels":
+        r = check_duplicate_labels(inp["seed"], inp["frame"])
+        return Finding("dort:" + r[0], r[0], inp, r[2], r[3]) if r else None
     if inp["kind"] == "untouched":
         if inp.get("first"):     # observable only once per process: the replay process is fresh
             first = warm_up()
